@@ -1,4 +1,5 @@
 import Grexv.Lemmas.Trie
+import Grexv.Lemmas.TrieExact
 import Grexv.Lemmas.ExprLang
 import Grexv.Lemmas.Contracts
 import Grexv.Props.C13
@@ -21,6 +22,16 @@ of test cases, the trie built by `Dfa::from` has an accepting path for every con
 theorem trie_accepts_every_cluster (cfg : Config) (env : Env) (ws : List Str) (hrep : cfg.rep = false) :
     ∀ cl ∈ graphemeClusters cfg env ws, (Dfa.trie (graphemeClusters cfg env ws)).Accepts cl := by
   apply Dfa.trie_accepts
+  intro cl hcl g hg
+  obtain ⟨h1, h2, h3⟩ := Props.C13.clusters_plain_without_rep cfg env ws hrep cl hcl g hg
+  exact ⟨h3, h1, h2⟩
+
+/-- **S5 (exactness)** without repetition conversion, for every configuration, segmentation and list of
+test cases, the trie accepts *exactly* the converted test cases: a label sequence is accepted iff it
+is one of the clusters — the first clause of the property as a theorem, at full strength -/
+theorem trie_language_exact (cfg : Config) (env : Env) (ws : List Str) (hrep : cfg.rep = false) (w : List Grapheme) :
+    (Dfa.trie (graphemeClusters cfg env ws)).Accepts w ↔ w ∈ graphemeClusters cfg env ws := by
+  apply Dfa.trie_exact
   intro cl hcl g hg
   obtain ⟨h1, h2, h3⟩ := Props.C13.clusters_plain_without_rep cfg env ws hrep cl hcl g hg
   exact ⟨h3, h1, h2⟩
